@@ -70,6 +70,8 @@ type Step struct {
 	Handle int    `json:"handle,omitempty"`
 	Op     *KOp   `json:"op,omitempty"`
 	Clock  uint64 `json:"clock"`
+	Start  string `json:"start,omitempty"` // dump: zero|current|stale|bogus  (CAS of Key in Coll)
+	Plus   uint64 `json:"plus,omitempty"`  // dump: added to the resolved start CAS
 }
 
 type kvInput struct {
@@ -286,11 +288,13 @@ func (k *kvRun) collectLive(expectPosted int64) []any {
 	return out
 }
 
-func dumpFeed(c *rosmar.Collection) ([]sgbucket.FeedEvent, error) {
+func dumpFeed(c *rosmar.Collection) ([]sgbucket.FeedEvent, error) { return dumpFeedFrom(c, 0) }
+
+func dumpFeedFrom(c *rosmar.Collection, start uint64) ([]sgbucket.FeedEvent, error) {
 	var mu sync.Mutex
 	var evs []sgbucket.FeedEvent
 	done := make(chan struct{})
-	args := sgbucket.FeedArguments{ID: "dump", Backfill: 0, Dump: true, DoneChan: done}
+	args := sgbucket.FeedArguments{ID: "dump", Backfill: start, Dump: true, DoneChan: done}
 	err := c.StartDCPFeed(ctxBg, args, func(ev sgbucket.FeedEvent) bool {
 		mu.Lock()
 		evs = append(evs, ev)
@@ -941,6 +945,7 @@ func execKvInner(in kvInput, scratch string, prog *kvProgress) (Case, error) {
 		prog.mu.Unlock()
 		now0 := time.Now().Unix()
 		var opT, respT Term
+		var dumpEvs []any
 		usesRelExp := false
 		switch st.Kind {
 		case "kv":
@@ -1011,6 +1016,32 @@ func execKvInner(in kvInput, scratch string, prog *kvProgress) (Case, error) {
 					delete(k.feeds, st.Coll)
 				}
 			}
+		case "dump":
+			exist, _, err := k.existingColls()
+			if err != nil {
+				return c, err
+			}
+			if !exist[st.Coll] {
+				c.Discard = fmt.Sprintf("step %d dumps collection %s which does not exist (invalid input)", i, st.Coll)
+				break
+			}
+			start := k.resolveCas(st.Start, st.Coll, st.Key) + st.Plus
+			if start == sgbucket.FeedResume {
+				start = 2 // 1 is the FeedResume marker, not a CAS
+			}
+			opT = C("SDump", S(st.Coll), N(start))
+			col, err := k.coll(0, st.Coll)
+			if err != nil {
+				return c, err
+			}
+			evs, err := dumpFeedFrom(col, start)
+			if err != nil {
+				return c, err
+			}
+			for _, ev := range evs {
+				dumpEvs = append(dumpEvs, feventTerm(ev))
+			}
+			respT = C("ROk")
 		case "expire":
 			opT = C("SExpire")
 			k.handles[0].VerifRunExpiry()
@@ -1035,7 +1066,7 @@ func execKvInner(in kvInput, scratch string, prog *kvProgress) (Case, error) {
 			return c, fmt.Errorf("snapshot after step %d: %w", i, err)
 		}
 		steps = append(steps, P(C("mkSctx", N(st.Clock), N(uint64(now0)), N(uint64(in.MaxDoc))), opT))
-		obs = append(obs, C("mkOstep", respT, L(live...), snap))
+		obs = append(obs, C("mkOstep", respT, L(live...), L(dumpEvs...), snap))
 		prog.mu.Lock()
 		prog.steps, prog.obs = steps, obs
 		prog.mu.Unlock()
@@ -1044,7 +1075,7 @@ func execKvInner(in kvInput, scratch string, prog *kvProgress) (Case, error) {
 	time.Sleep(2 * time.Millisecond)
 	if extra := k.collectLive(0); len(extra) > 0 {
 		k.notes = append(k.notes, fmt.Sprintf("%d extra feed events after the end of the history", len(extra)))
-		obs = append(obs, C("mkOstep", C("RErr", C("EOther")), L(extra...), C("mkSnap", L(), L(), L(), L())))
+		obs = append(obs, C("mkOstep", C("RErr", C("EOther")), L(extra...), L(), C("mkSnap", L(), L(), L(), L())))
 	}
 	c.CoqInput = C("mkScase", strsTerm(kvColls), strsTerm(kvKeys), strsTerm(kvXnames), L(steps...))
 	c.CoqObs = L(obs...)
